@@ -15,13 +15,14 @@ META = {
     "coq_targets": ["Props/C13.vo", "Extract/Extract_C13.vo"],
     "technique": "Coq proof (association-list model of dict(zip(..)); fold invariants for the per-frame and per-time painting loops, reusing the C19 painter lemmas) + differential correspondence of the extracted model with relabel_segmentation and with the tracks_from_df import path",
     "level_text": "Theorems C13_offset / C13_relabel / C13_relabel_last_wins / C13_graph_shift / C13_shortcut_sound / C13_handle_segmentation hold for every label array and every list of (node id, time, seg id) rows of every size (unbounded Z labels and ids); the hand-written model is tied to /repo by running the extracted model and the implementation (direct call and end-to-end DataFrame import) on the same generated inputs and comparing arrays pixel by pixel, the renamed node sets, and which branch of handle_segmentation was taken. C13_relabel_is_generated: relabel_segmentation of the model equals, for all arguments, the code translated on every run from the current _import_segmentation.py (Gen/Relabel_gen.v; fail-closed translator).",
-    "level_note": "Trusted: Coq kernel, extraction (ExtrOcamlBasic), OCaml driver, Python harness. Modelled not verified: numpy boolean-mask assignment, np.unique, np.isin, np.array_equal, Python dict insertion order, networkx relabel_nodes (its effect on the node set is compared with the model on every case; edges are checked by the oracle only), pandas/geff loading of the DataFrame (row order is preserved; checked by the comparison). uint64 wrap-around is out of scope (ids are unbounded Z in the model, non-negative in the harness).",
+    "level_note": "Trusted: Coq kernel, extraction (ExtrOcamlBasic), OCaml driver, Python harness. Modelled not verified: numpy boolean-mask assignment, np.unique, np.isin, np.array_equal, Python dict insertion order, networkx relabel_nodes (its effect on the node set is compared with the model on every case; edges are checked by the oracle only), pandas/geff loading of the DataFrame (row order is preserved; checked by the comparison). uint64 wrap-around is out of scope (ids are unbounded Z in the model, non-negative in the harness). Tied to the source in a second way: relabel_segmentation is re-translated on every run (harness/translate_numpy_utils.py, fail closed; numpy combinators Model/NpRt.v) and proved equal to the model (Proofs/RelabelTie.v).",
     "design_ref": "DESIGN.md section 9 (C13)",
     "assumptions": ["every row's time is a valid frame index (0 <= time < T); Python raises IndexError otherwise",
                     "C13_relabel / C13_handle_segmentation: the (time, seg id) pairs of the rows are pairwise distinct (C13_relabel_last_wins covers repeated pairs: the later row wins)",
                     "C13_handle_segmentation: the identity shortcut is not taken while 0 is a node id (only possible when node 0 has seg id 0, i.e. claims the background; then nothing is shifted - see Example C13_shortcut_id0_differs)",
                     "node ids are non-negative and below 2^64 - 1 (the output array is uint64)"],
-    "trusted": ["networkx.relabel_nodes(copy=False) with the mapping id -> id+1: node set and edge set after the call are compared with id+offset on every generated case"],
+    "trusted": ["translator harness/translate_numpy_utils.py (closed idiom table; fail closed) with the numpy combinators coq/Model/NpRt.v",
+                "networkx.relabel_nodes(copy=False) with the mapping id -> id+1: node set and edge set after the call are compared with id+offset on every generated case"],
 }
 
 SHAPES_2D = [(2, 2), (2, 3), (3, 3), (1, 4), (3, 2)]
